@@ -96,26 +96,34 @@ Definition prepared_iterations (at_des at_round after_step : nat) : option (list
   option_map (map (fun pid => map (fun rid => nth rid round_defs []) (nth pid pass_defs [])))
              (lookup nat3_eqb (at_des, at_round, after_step) iter_table).
 
-(* what _prepare_keys returned: per pass the 16 round keys in the order of use *)
-Definition prepared_keys (dec : bool) (at_des : nat) (key : list N) : option (list (list (list N))) :=
+(* key_schedule of every 8-byte key of a master-key bundle *)
+Definition key_schedules (key : list N) : list (list (list N)) := map m_key_schedule (chunks (length key / 8) 8 key).
+
+(* what _prepare_keys returned: per pass the 16 round keys in the order of use
+   ([scheds] = the key schedules of the bundle, a parameter so that the harness computes them once per key) *)
+Definition prepared_keys_with (scheds : list (list (list N))) (dec : bool) (at_des : nat) (key : list N)
+  : option (list (list (list N))) :=
   let klen := length key in
   match lookup key3_eqb (klen, dec, at_des) key_sel_master with
-  | Some sel =>
-    let scheds := map m_key_schedule (chunks (klen / 8) 8 key) in
-    Some (map (map (fun kr => nth (snd kr) (nth (fst kr) scheds []) [])) sel)
+  | Some sel => Some (map (map (fun kr => nth (snd kr) (nth (fst kr) scheds []) [])) sel)
   | None =>
     match lookup key3_eqb (klen, dec, at_des) key_sel_expanded with
     | Some sel => Some (map (map (fun kr => firstn 8 (skipn (128 * fst kr + 8 * snd kr) key))) sel)
     | None => None
     end
   end.
+Definition prepared_keys (dec : bool) (at_des : nat) (key : list N) : option (list (list (list N))) :=
+  prepared_keys_with (key_schedules key) dec at_des key.
 
 (* encrypt / decrypt on one (key, block) pair with explicit stop point; None = refused (no such key form / stop point) *)
-Definition des_cipher (dec : bool) (at_des at_round after_step : nat) (key block : list N) : option (list N) :=
-  match prepared_keys dec at_des key, prepared_iterations at_des at_round after_step with
+Definition des_cipher_with (scheds : list (list (list N))) (dec : bool) (at_des at_round after_step : nat) (key block : list N)
+  : option (list N) :=
+  match prepared_keys_with scheds dec at_des key, prepared_iterations at_des at_round after_step with
   | Some ks, Some its => Some (fst (run_iterations its ks (block, [])))
   | _, _ => None
   end.
+Definition des_cipher (dec : bool) (at_des at_round after_step : nat) (key block : list N) : option (list N) :=
+  des_cipher_with (key_schedules key) dec at_des at_round after_step key block.
 
 (* _set_at_des / _set_at_round: None = the last pass / the last round *)
 Definition default_at_des (klen : nat) : nat := if Nat.eqb klen 8 || Nat.eqb klen 128 then 0%nat else 2%nat.
@@ -126,11 +134,19 @@ Definition dir_of (dec : bool) : dir := if dec then Dec else Enc.
 
 (* ------------------------------------------------------------------ correspondence: case records and checks *)
 (* rows travel packed: a row of n bytes is the number with these base-256 digits, most significant first *)
-Definition unpack (n : nat) (x : N) : list N := bytes_be n x.
+(* (shifts and masks: a 384-byte key is a 3072-bit number, on which division by 256^k would be very slow) *)
+Fixpoint unpack_le (n : nat) (x : N) : list N :=
+  match n with
+  | O => []
+  | S n' => N.land x 255 :: unpack_le n' (N.shiftr x 8)
+  end.
+Definition unpack (n : nat) (x : N) : list N := rev (unpack_le n x).
 Definition pack (l : list N) : N := fold_left (fun a b => 256 * a + b) l 0.
 
-Definition olist_eqb (a : option (list N)) (b : list N) : bool :=
-  match a with Some l => nlist_eqb l b | None => false end.
+(* long rows (a 384-byte key, the 128 words of a key schedule) travel as 8-byte limbs: parsing one huge literal is slow *)
+Definition unpack_limbs (limbs : list N) : list N := flat_map (unpack 8) limbs.
+Definition pack_limbs (l : list N) : list N :=
+  if Nat.leb (length l) 8 then [pack l] else map pack (chunks (length l / 8) 8 l).
 
 (* --- the public primitives *)
 Inductive prim := PIp | PFp | PE | PS | PP | PInvP | PKs.
@@ -147,13 +163,14 @@ Definition prim_model (p : prim) (row : list N) : list N :=
   end.
 
 (* one call of a primitive on a 2-D array: pr_in = the packed rows, pr_obs = the packed rows of the result *)
+(* (the 128 words of a key schedule come back as sixteen 8-byte limbs per row) *)
 Record prim_case := { pr_prim : prim; pr_in : list N; pr_obs : list N }.
 Definition prim_check (c : prim_case) : bool :=
   let rows := map (unpack (prim_nin (pr_prim c))) (pr_in c) in
-  nlist_eqb (map (fun r => pack (prim_spec (pr_prim c) r)) rows) (pr_obs c)
-  && nlist_eqb (map (fun r => pack (prim_model (pr_prim c) r)) rows) (pr_obs c).
+  nlist_eqb (flat_map (fun r => pack_limbs (prim_spec (pr_prim c) r)) rows) (pr_obs c)
+  && nlist_eqb (flat_map (fun r => pack_limbs (prim_model (pr_prim c) r)) rows) (pr_obs c).
 Definition prim_expected (c : prim_case) : list N :=
-  map (fun r => pack (prim_spec (pr_prim c) r)) (map (unpack (prim_nin (pr_prim c))) (pr_in c)).
+  flat_map (fun r => pack_limbs (prim_spec (pr_prim c) r)) (map (unpack (prim_nin (pr_prim c))) (pr_in c)).
 
 (* single-byte sweep: the rows are  0 .. 0 x 0 .. 0  with x = 0 .. ps_count - 1 in column ps_col *)
 Record sweep_case := { ps_prim : prim; ps_col : nat; ps_count : nat; ps_obs : list N }.
@@ -175,29 +192,44 @@ Definition pair_rows {A B} (ks : list A) (bs : list B) : list (A * B) :=
   end.
 
 (* a sequence of calls (same arrays, one process): each stop = (at_des, at_round, after_step), None = argument left to its default;
-   dc_obs = for each call the packed rows of the result (each row has 8 columns) *)
+   dc_obs = for each call the packed rows of the result (each row has 8 columns); a key row is given as its 8-byte limbs *)
 Record cipher_case := {
-  dc_dec : bool; dc_klen : nat; dc_keys : list N; dc_blocks : list N;
+  dc_dec : bool; dc_keys : list (list N) (* each key row as 8-byte limbs *); dc_blocks : list N;
   dc_stops : list (option nat * option nat * option nat); dc_obs : list (list N) }.
 
+Definition stop_args (klen : nat) (stop : option nat * option nat * option nat) : nat * nat * nat :=
+  let '(d, r, s) := stop in (resolve_des klen d, resolve_round r, match s with Some s => s | None => 9%nat end).
+
 Definition stop_spec (dec : bool) (stop : option nat * option nat * option nat) (key block : list N) : option (list N) :=
-  let '(d, r, s) := stop in
-  des_spec (dir_of dec) (resolve_des (length key) d) (resolve_round r) (match s with Some s => s | None => 9%nat end) key block.
+  let '(d, r, s) := stop_args (length key) stop in des_spec (dir_of dec) d r s key block.
 Definition stop_model (dec : bool) (stop : option nat * option nat * option nat) (key block : list N) : option (list N) :=
-  let '(d, r, s) := stop in
-  des_cipher dec (resolve_des (length key) d) (resolve_round r) (match s with Some s => s | None => 9%nat end) key block.
+  let '(d, r, s) := stop_args (length key) stop in des_cipher dec d r s key block.
 
 Definition orow_eqb (a : option (list N)) (b : N) : bool :=
   match a with Some l => Nat.eqb (length l) 8 && N.eqb (pack l) b | None => false end.
 
+(* one (key, block) pair with the key schedules of both sides computed once *)
+Record prepared_pair := { pp_key : list N; pp_block : list N; pp_spec_ks : option (list (list (list N))); pp_model_ks : list (list (list N)) }.
+Definition prepare_pair (kb : list N * list N) : prepared_pair :=
+  {| pp_key := fst kb; pp_block := snd kb; pp_spec_ks := schedules_of_key (fst kb);
+     pp_model_ks := if Nat.leb (length (fst kb)) 24 then key_schedules (fst kb) else [] |}.
+
+(* the SPEC is compared on every pair; the impl-model on the first pair of every call *)
 Definition cipher_check (c : cipher_case) : bool :=
-  let pairs := pair_rows (map (unpack (dc_klen c)) (dc_keys c)) (map (unpack 8) (dc_blocks c)) in
+  let pairs := map prepare_pair (pair_rows (map unpack_limbs (dc_keys c)) (map (unpack 8) (dc_blocks c))) in
   forallb2 (fun stop obs =>
-      forallb2 (fun kb o => orow_eqb (stop_spec (dc_dec c) stop (fst kb) (snd kb)) o
-                            && orow_eqb (stop_model (dc_dec c) stop (fst kb) (snd kb)) o) pairs obs)
+      forallb2 (fun pp o =>
+          let '(d, r, s) := stop_args (length (pp_key pp)) stop in
+          orow_eqb (des_spec_with (pp_spec_ks pp) (dir_of (dc_dec c)) d r s (pp_block pp)) o) pairs obs
+      && match pairs, obs with
+         | pp :: _, o :: _ =>
+           let '(d, r, s) := stop_args (length (pp_key pp)) stop in
+           orow_eqb (des_cipher_with (pp_model_ks pp) (dc_dec c) d r s (pp_key pp) (pp_block pp)) o
+         | _, _ => false
+         end)
     (dc_stops c) (dc_obs c).
 Definition cipher_expected (c : cipher_case) : list (list (option N)) :=
-  let pairs := pair_rows (map (unpack (dc_klen c)) (dc_keys c)) (map (unpack 8) (dc_blocks c)) in
+  let pairs := pair_rows (map unpack_limbs (dc_keys c)) (map (unpack 8) (dc_blocks c)) in
   map (fun stop => map (fun kb => option_map pack (stop_spec (dc_dec c) stop (fst kb) (snd kb))) pairs) (dc_stops c).
 
 (* ------------------------------------------------------------------ vocabulary of the statements (Props/C06.v) *)
